@@ -137,6 +137,12 @@ void run_case(Tape& t, Stats& st) {
 	case 1: { Wav a = gen_wav(t, f, 64); for (auto it = ws.begin(); it != ws.end();) { if (refvol::ieq(it->base, a.base)) it = ws.erase(it); else ++it; }
 		Wav b = gen_wav(t, f, 64); b.base = volgen::case_variant(a.base, t.u64()); if (b.base == a.base && b.ext == a.ext) b.dir = a.dir.empty() ? "%d0/" : ""; else if (b.base == a.base) { /* differs in extension case only */ }
 		ws.push_back(a); ws.insert(ws.begin() + t.below(ws.size() + 1), b); refusal_case(ws, "duplicate_names_ignoring_case", st); break; }
+	case 4: { // duplicate base names that are NOT neighbours when the files are ordered by their full names: b.1 < b.5.wav < b.9 (base names b, b.5, b)
+		std::string b = gen_base(t, 6); for (auto it = ws.begin(); it != ws.end();) { if (refvol::ieq(it->base, b) || refvol::ieq(it->base, b + ".5")) it = ws.erase(it); else ++it; }
+		Wav w1 = gen_wav(t, f, 64), w2 = gen_wav(t, f, 64), w3 = gen_wav(t, f, 64);
+		w1.base = b; w1.ext = ".1"; w2.base = b + ".5"; w2.ext = ".wav"; w3.base = volgen::case_variant(b, t.u8()); w3.ext = ".9"; w1.dir = w2.dir = w3.dir = "";
+		ws.insert(ws.begin() + t.below(ws.size() + 1), w1); ws.insert(ws.begin() + t.below(ws.size() + 1), w2); ws.insert(ws.begin() + t.below(ws.size() + 1), w3);
+		refusal_case(ws, "duplicate_names_separated_by_a_dotted_name", st); break; }
 	case 2: { if (ws.empty()) ws.push_back(gen_wav(t, f, 64)); refclm::WaveFormat g = f; switch (t.below(6)) { case 0: g.formatTag ^= 1; break; case 1: g.channels += 1; break; case 2: g.samplesPerSec ^= 0x100; break; case 3: g.avgBytesPerSec += 1; break; case 4: g.blockAlign ^= 2; break; default: g.bitsPerSample += 8; break; }
 		Wav w = gen_wav(t, g, 64); for (auto& x : ws) if (refvol::ieq(x.base, w.base)) w.base = "zz" + std::to_string(t.below(90)); ws.insert(ws.begin() + t.below(ws.size() + 1), w); refusal_case(ws, "format_mismatch", st); break; }
 	case 3: { Wav w = gen_wav(t, f, 64); for (auto& x : ws) if (refvol::ieq(x.base, w.base)) w.base = "qq" + std::to_string(t.below(90));
@@ -178,6 +184,9 @@ void run_sweep(Stats& st) {
 		}
 		Tape t(tp); success_case(ws, f, t, st);
 	}
+	if (sw("dup_dotted")) { std::vector<Wav> ws; const char* names[3][2] = {{"a", ".1"}, {"a.5", ".wav"}, {"a", ".9"}};
+		for (auto& n : names) { Wav w; w.base = n[0]; w.ext = n[1]; w.dir = ""; w.spec.fmt = f; w.spec.data = {1, 2, 3, 4}; w.bytes = refclm::build_wav(w.spec); ws.push_back(w); }
+		refusal_case(ws, "duplicate_names_separated_by_a_dotted_name", st); }
 	if (sw("empty_set")) { Tape t(tp); success_case({}, f, t, st); }
 	// names of exactly 8 and 9 characters
 	for (unsigned len = 7; len <= 10; ++len) { if (!sw("name_len", len)) continue; Wav w; w.base = std::string(len, 'n'); w.ext = ".wav"; w.spec.fmt = f; w.spec.data = {1, 2, 3, 4}; w.bytes = refclm::build_wav(w.spec); Tape t(tp); if (len <= 8) success_case({w}, f, t, st); else refusal_case({w}, "name_longer_than_8", st); }
